@@ -583,3 +583,28 @@ MUTANTS += [
                                                  (P, '"%s", (state->current_value.bool_value) ? "true" : "false");', '"%s", (!state->current_value.bool_value) ? "true" : "false");')],
      'expect': {'C14': 'FORMAT'}},
 ]
+
+# ---- silent: the token loop in do-while form (the machine-based checks must still extract it) -------------------------------
+MUTANTS += [
+    {'name': 'silent_token_loop_do_while', 'edits': [(P, '''    while (proceed) {
+        proceed = false;
+        state = &parser->state[(parser->depth > 0) ? parser->depth - 1 : 0];
+''', '''    do {
+        proceed = false;
+        state = &parser->state[(parser->depth > 0) ? parser->depth - 1 : 0];
+'''), (P, '''            proceed = true;
+        }
+
+
+    }
+
+    return (BINSON_ERROR_NONE == parser->error_flags);''', '''            proceed = true;
+        }
+
+
+    } while (proceed);
+
+    return (BINSON_ERROR_NONE == parser->error_flags);''')],
+     'expect': {'C06': None, 'C08': None, 'C02': None, 'C14': None, 'C11': None, 'C07': None, 'C03': None, 'C01': None, 'C09': None,
+                'C12': None, 'C13': None, 'C16': None, 'C18': None}},
+]
